@@ -34,7 +34,7 @@ COMPONENTS = {
     "stub": ["binja_test_mocks LLIL evaluator", "flat bus (see C06)"],
 }
 ASSUMPTIONS = ["TEMP registers, call-depth counters and perf counters themselves are not compared (they are the hidden state)"]
-PROBES = ["rom_stub_reached", "prefix_block", "prefix_call", "scramble", "focus_ret", "focus_block", "split_in_handler",
+PROBES = ["machine_history", "rom_stub_reached", "prefix_block", "prefix_call", "scramble", "focus_ret", "focus_block", "split_in_handler",
           "repeat_identical", "tracing_on_off"]
 FOCUS_OPS = [0x06, 0x07, 0x01, 0x04, 0x05, 0xCB, 0xCF, 0xD3, 0xDB, 0xE3, 0xEB, 0xF3, 0xFB, 0x54, 0x55, 0x5C, 0x5D, 0xC4, 0xC5,
              0xD4, 0xD5, 0xEC, 0xFC, 0xC0, 0xC1, 0xC2, 0xC3, 0xDD, 0xED, 0x6C, 0x7C, 0x28, 0x29, 0x2A, 0x2B, 0x2C, 0x2D, 0x2E, 0x2F,
@@ -45,10 +45,12 @@ def batches(tier: str) -> List[Batch]:
     if tier == "quick":
         return [Batch("rs-hist", "rs-core", 20000, 200), Batch("py-hist", "py-core", 480, 6),
                 Batch("rs-split", "rs-machine", 3000, 100), Batch("py-split", "py-machine", 240, 6),
-                Batch("py-trace", "py-machine", 160, 8), Batch("rs-dev", "rs-machine", 2000, 100)]
+                Batch("py-trace", "py-machine", 160, 8), Batch("rs-dev", "rs-machine", 2000, 100),
+                Batch("rs-mhist", "rs-machine", 4000, 100)]
     return [Batch("rs-hist", "rs-core", 1500000, 500), Batch("py-hist", "py-core", 150000, 50),
             Batch("rs-split", "rs-machine", 150000, 300), Batch("py-split", "py-machine", 8000, 10),
-            Batch("py-trace", "py-machine", 6000, 10), Batch("rs-dev", "rs-machine", 60000, 200)]
+            Batch("py-trace", "py-machine", 6000, 10), Batch("rs-dev", "rs-machine", 60000, 200),
+            Batch("rs-mhist", "rs-machine", 200000, 300)]
 
 
 def generate(batch: str, r: Rng, idx: int, tier: str) -> Dict[str, Any]:
@@ -63,6 +65,25 @@ def generate(batch: str, r: Rng, idx: int, tier: str) -> Dict[str, Any]:
         return scn
     if batch == "rs-dev":
         return _gen_dev(r)
+    if batch == "rs-mhist":
+        # history independence of the whole Rust machine: generated firmware with interrupts, timers and key events;
+        # replica B has its hidden state scrambled at one boundary (TEMPs, call bookkeeping, performance counter and
+        # the timer's diagnostic mirrors of IMR/ISR); every boundary is compared
+        feat = machine.gen_features(r.child("feat"), {"timers": True, "imr_writes": True, "isr_writes": True, "wait": True,
+                                                      "halt": True, "ir": True, "calls": True, "far_calls": True,
+                                                      "nested": True, "off": False, "keys": True, "onk": True})
+        feat["timers"] = True
+        n = r.choice([30, 80, 160])
+        scn = machine.gen_machine_scenario(r, "rs-machine", feat, boundaries=n, faulty=True)
+        rs = r.child("scramble")
+        scn["scramble_op"] = [rs.range(0, n - 1), "scramble", [rs.below(1 << 24) for _ in range(14)], rs.below(8),
+                              [rs.below(16) << 16 for _ in range(rs.range(0, 3))], rs.below(1 << 30), rs.choice([16, 24]),
+                              [rs.choice([0, 0x80, 0xFF, rs.below(256)]), rs.choice([0, 0x0F, rs.below(256)])]]
+        scn["kind"] = "dev"
+        scn["top_frame"] = scn["scramble_op"][6]
+        scn["device"] = None
+        scn["stub"] = 0
+        return scn
     if batch.endswith("split"):
         ex = "rs-machine" if batch.startswith("rs") else "py-machine"
         feat = machine.gen_features(r.child("feat"), {"timers": True, "imr_writes": True, "isr_writes": True, "wait": True,
@@ -73,7 +94,16 @@ def generate(batch: str, r: Rng, idx: int, tier: str) -> Dict[str, Any]:
         # behind anywhere outside itself would show in the next one
         feat["card_rw"] = r.child("card").chance(1, 2)
         n = r.choice([20, 60, 150] if ex == "py-machine" else [20, 60, 150, 300])
-        scn = machine.gen_machine_scenario(r, ex, feat, boundaries=n, faulty=False)
+        # one Python split run in three goes through the package's SnapshotOrchestrator (inputs, run, state capture per
+        # step) with key presses as step inputs: capturing state between two steps must not be an event
+        orch = ex == "py-machine" and r.child("orch").chance(1, 3)
+        if orch:
+            feat["keys"] = True
+            feat["kil_reads"] = True
+        scn = machine.gen_machine_scenario(r, ex, feat, boundaries=n, faulty=bool(orch))
+        if orch:
+            scn["orch"] = True
+            scn["ops"] = [o for o in scn["ops"] if o[1] == "key"]
         if feat["card_rw"]:
             scn["watch"] = list(scn.get("watch", [])) + [[0x40010, 2], [0x47FF0, 1], [0x4FFFE, 1]]
         scn["kind"] = "split"
@@ -184,7 +214,7 @@ def _gen_dev(r: Rng) -> Dict[str, Any]:
 def _exec_dev(scn: Dict[str, Any]) -> Dict[str, Any]:
     a = machine.run_machine(scn)
     b_scn = dict(scn)
-    b_scn["ops"] = [scn["scramble_op"]]
+    b_scn["ops"] = sorted(list(scn.get("ops") or []) + [scn["scramble_op"]], key=lambda o: (o[0], 0 if o[1] == "scramble" else 1))
     b = machine.run_machine(b_scn)
     return {"a": {"obs": [o[:machine.O_SHADOW] for o in a["obs"]], "err": a["err"]},
             "b": {"obs": [o[:machine.O_SHADOW] for o in b["obs"]], "err": b["err"]}}
@@ -202,7 +232,7 @@ def _check_dev(scn: Dict[str, Any], hist: Dict[str, Any]) -> List[Dict[str, Any]
             if a[k][idx] != b[k][idx]:
                 at_stub = k > 0 and a[k - 1][machine.O_PC] in SIO_STUBS
                 ks = scn["scramble_op"][0]
-                live_near = ks < len(a) and scn["h_range"][0] <= a[ks][machine.O_PC] <= scn["h_range"][1]
+                live_near = "h_range" in scn and ks < len(a) and scn["h_range"][0] <= a[ks][machine.O_PC] <= scn["h_range"][1]
                 # the stub reads the width of the innermost frame of the bookkeeping: with stale frames of the far call's
                 # own width and no near call live when they appeared, fresh and scrambled bookkeeping say the same
                 agrees = scn["top_frame"] == 24 and not live_near
@@ -294,6 +324,25 @@ def _exec_split(scn: Dict[str, Any]) -> Dict[str, Any]:
         return {"whole": out[1], "split": out[4], "again": out[6], "ok": [out[0], out[2], out[3], out[5]]}
     res = {}
     oks = []
+    if scn.get("orch"):
+        from pce500.orchestrator import OrchestratorInputs, SnapshotOrchestrator
+        for label, extra in (("whole", []), ("split", [k]), ("again", [])):
+            emu = machine.build_py_machine(scn)
+            orch = SnapshotOrchestrator(emulator=emu)
+            cuts = sorted(set([0, n] + [o[0] for o in scn["ops"] if 0 <= o[0] < n] + extra))
+            for a, b in zip(cuts, cuts[1:]):
+                press = [machine.key_name(o[3]) for o in scn["ops"] if o[0] == a and o[2]]
+                release = [machine.key_name(o[3]) for o in scn["ops"] if o[0] == a and not o[2]]
+                try:
+                    snap = orch.step(OrchestratorInputs(max_instructions=b - a, press_keys=press, release_keys=release))
+                    oks.append(snap.executed_instructions)
+                    if extra and b in extra:
+                        orch.capture_snapshot()        # a look at the machine between two steps
+                except Exception as e:
+                    oks.append(f"{type(e).__name__}: {e}")
+            res[label] = machine.py_obs(emu, watch)
+        res["ok"] = [x for x in oks if isinstance(x, str)]
+        return res
     for label, parts in (("whole", [n]), ("split", [k, n - k]), ("again", [n])):
         emu = machine.build_py_machine(scn)
         for p in parts:
@@ -421,7 +470,10 @@ def stats(scn: Dict[str, Any], hist: Dict[str, Any]) -> Dict[str, Any]:
         probes = dict(hist.get("_probes") or {})
         probes["scramble"] = 1
         obs = hist["a"]["obs"]
-        return {"nontrivial": bool(probes.get("rom_stub_reached")), "sig": digest([scn["prog"]["image"], scn["scramble_op"], scn["device"]]),
+        if scn.get("device") is None:
+            probes["machine_history"] = 1
+        return {"nontrivial": bool(probes.get("rom_stub_reached")) or (scn.get("device") is None and bool(obs) and obs[-1][machine.O_IRQ] > 0),
+                "sig": digest([scn["prog"]["image"], scn["scramble_op"], scn["device"]]),
                 "faults": {"hidden_scramble": 1}, "probes": probes, "cycles": obs[-1][machine.O_CYC] if obs else 0,
                 "boundaries": 2 * len(obs)}
     if scn["kind"] == "trace":
